@@ -125,6 +125,14 @@ Theorem c12_converged_no_growth : forall (mva : Z -> Z -> Z) (mvc smv : Z -> Z) 
 Proof. exact converged_no_growth. Qed.
 Print Assumptions c12_converged_no_growth.
 
+(* 7. protobuf messages: MessageAllocationMetadata::reserve - the single function through which BOTH rebuild paths go
+      (typed create_object<T>() and base-registered create_object<google::protobuf::Message>(creator)) - ends with
+      message.Clear() (regenerated as msg_reserve_clears), so a rebuilt message shows no singular sub-message as present,
+      whatever was used before.  Moving the Clear() into a caller re-opens b_msg_reserve_clears / breaks the translator. *)
+Theorem c12_message_recreate_fresh : forall used, msg_recreate used = repeat false (length used).
+Proof. exact msg_recreate_fresh. Qed.
+Print Assumptions c12_message_recreate_fresh.
+
 (* non-vacuity: the empty vector is well formed; a concrete run exercises the reuse window (constructed > size),
    shifts by move-assignment and reconstructs in place *)
 Example c12_wf_empty : wf empty_vec.
